@@ -157,25 +157,25 @@ NOT_APPLICABLE: dict[str, str] = {}
 # dimensions added to a check's alphabet after the seeded-change rounds (DESIGN.md section 9)
 ADDED = {
     "C01": "nested functions (declaration, callback argument, const arrow, returned function, nested def): uniform counting with a constant step",
-    "C02": "one run over four languages with a different allowed list each (all 24 orders); upper-case exponents, hex with e, BigInt; per-language allowed_numbers / max_small_integer sections (equivalence with the same value at top level, down to the empty list); private / dunder / digit constant names",
+    "C02": "one run over four languages with a different allowed list each (all 24 orders); upper-case exponents, hex with e, BigInt; per-language allowed_numbers / max_small_integer sections (equivalence with the same value at top level, down to the empty list); private / dunder / digit constant names; upper-case radix prefixes (0XE5, 0O17, 0B110)",
     "C03": "whole-file occurrences (the file's entire code is the run) and self-overlapping periodic runs",
     "C04": "two directives stacked on one violation; the repository ignore list handed over with --config; line-scoped directives on finalize-time duplicate-code violations for four ways of naming the target; deprecated alias written with capitals",
     "C05": "the global form `thailint --config FILE <command>` as a carrier; documented-invalid values on the command line; per-language override blocks in runs over files of several languages, every order, against the file alone",
     "C06": "configuration documents that are a list or a scalar; surrogate-escaped file names in all three formats",
-    "C07": "explicit --config files (empty, same, looser) against a strict project configuration; several directory arguments; constants duplicated across more files than a message lists",
+    "C07": "explicit --config files (empty, same, looser) against a strict project configuration; several directory arguments; constants duplicated across more files than a message lists; in the real-pool run an extension-less python script inside a cross-file duplicate, a 5000-digit integer file and a 1500-deep expression (limits the CLI entry point lifts must reach the workers)",
     "C08": "a file-level suppression added by the history's edit; 40 modules linted repeatedly by one Linter; non-transitive fuzzy constants and js/ts thresholds in the order item; all ordered pairs of a probe corpus against fresh-interpreter references (module-level state); rotations / reversal / adjacent swaps of seven files that share more partner locations than a message lists; the same project under every hash seed",
-    "C09": "nested-prefix repository patterns, an every-linter-ignored shelf/ copy and parent, grandparent working directory, symlink and <root>/tests/.. spellings, placement rules and directive-suppressed duplicates in the relocated project; linter-level ignore patterns with a directory prefix, seen from working directories inside that prefix",
-    "C10": "a probe tree (extensionless scripts, two findings on one line, name-clash pairs) below a parent called build, with fresh-interpreter single-file references and `.` vs absolute directory spelling",
+    "C09": "nested-prefix repository patterns, an every-linter-ignored shelf/ copy and parent, grandparent working directory, symlink and <root>/tests/.. spellings, placement rules and directive-suppressed duplicates in the relocated project; linter-level ignore patterns with a directory prefix, seen from working directories inside that prefix; --parallel variants of the cross-file commands on the relocated project (absolute and relative spelling, three working directories)",
+    "C10": "a probe tree (extensionless scripts, two findings on one line, name-clash pairs) below a parent called build, with fresh-interpreter single-file references and `.` vs absolute directory spelling; the same settings carried by .thailint.yaml, .thailint.json and pyproject.toml in turn, command line against library",
     "C11": "cases run in a child process that is killed on a hang; special literals (5000-digit integers, lone surrogates, unterminated comments); files full of suppression directives in the mutation neighbourhood; every byte after script / BOM prefixes; the faulty file linted before and between the healthy ones",
     "C12": "wrapped statements (call on a continuation line), JSDoc / docstring above duplicated blocks",
     "C13": "supplementary programs that sit exactly on a limit (elif chain at max depth, class at max_loc, open ignore block reaching EOF); whitespace-only lines",
-    "C14": "--parallel variants of the root runs; the configuration handed over with --config; several targets in one run (directory inside an excluded directory plus files)",
-    "C15": "non-python shebang followed by a line mentioning python; several extensionless files in one run in three orders",
+    "C14": "--parallel variants of the root runs; the configuration handed over with --config; several targets in one run (directory inside an excluded directory plus files); directory patterns of several segments below `**/`",
+    "C15": "non-python shebang followed by a line mentioning python; several extensionless files in one run in three orders; upper/mixed-case extensions also for the linters whose verdict depends on the path (Rust linters, magic-numbers, improper-logging, file-header, lazy-ignores, method-property)",
     "C16": "override blocks that set one threshold only; one run over four languages in all 24 orders; helper functions nested in method bodies",
-    "C17": "closures nested inside the blocking-wrapper closure",
+    "C17": "closures nested inside the blocking-wrapper closure; blocking calls in a non-async helper fn declared inside the async fn",
     "C18": "trailing-slash, key-order and empty-allow variants of every rule set",
     "C19": "embeddings: same names again inside a function, nested in its own loop, beside unrelated modules that reuse the example's variable names",
-    "C20": "hyphen spellings of the keys; values with outer whitespace, NEL, falsy spellings; sections emptied by hand, sections around the generated banner, duplicate-key invariant; merges into empty and comment-only documents",
+    "C20": "hyphen spellings of the keys; values with outer whitespace, NEL, falsy spellings; sections emptied by hand, sections around the generated banner, duplicate-key invariant; merges into empty and comment-only documents; config set / reset against every spelling of the file name: a failing command leaves the file byte-for-byte unchanged",
 }
 
 
